@@ -529,7 +529,14 @@ def _wallet_step(cfg, w, op, addr_of) -> str:
     return r + "@" + _wallet_state(cfg, w)
 
 
+_REFUSED_KEYS = ["not a key", "0479be667ef9dcbbac55a06295ce870b07029bfcdb2dce28d959f2815b16f81798"
+                 "483ada7726a3c4655da4fbfc0e1108a8fd17b448a68554199c47d08ffb10d4b8"]   # garbage; uncompressed for p2wpkh
+
+
 def _key_for(cfg, tok, addr_of):
+    if tok == "!":
+        _REFUSED_KEYS.append(_REFUSED_KEYS.pop(0))   # alternate the two reasons add refuses
+        return _REFUSED_KEYS[0]
     if addr_of[tok] == _foreign_key_addr():
         return FOREIGN_KEY
     return _ref_wallet(cfg).prv_key(addr_of[tok])  # the WIF of a key at one of the wallet's own positions
@@ -599,6 +606,103 @@ def _memo_run(maxsize, ops):
     return out
 
 
+# =============================================================================== backend flag, construction-time capture
+_R1 = CURVES["secp256r1"]
+_BASE = mult(5)
+_BASE_R1 = mult(5, ec=_R1)
+
+
+def _build_obj(k, served):
+    """the k-th object of a history: dsa.Signer, ssa.Signer, _TweakChain in turn, for a served / unserved (ec, hf)."""
+    kind = ("dsa", "ssa", "chain")[k % 3]
+    if kind == "dsa":
+        return kind, served, dsa.Signer(_Q) if served else dsa.Signer(_Q, secp256k1, hashlib.sha1)
+    if kind == "ssa":
+        return kind, served, ssa.Signer(_Q) if served else ssa.Signer(_Q, _R1)
+    return kind, served, curve_mod._TweakChain(_BASE) if served else curve_mod._TweakChain(_BASE_R1, _R1)  # noqa: SLF001
+
+
+def _obj_arm(kind, o):
+    held = {"dsa": lambda: o._pub_key_sec, "ssa": lambda: o._signer, "chain": lambda: o._chain}[kind]()  # noqa: SLF001
+    return "C" if held is not None else "P"
+
+
+def _obj_answer(kind, served, o, t=77):
+    if kind == "dsa":
+        return o.sign_(_MSG if served else _MSG[:20])
+    if kind == "ssa":
+        return o.sign_(_MSG, _AUX)
+    return o.point(t)
+
+
+def _free_answer(kind, served, t=77):
+    if kind == "dsa":
+        return (dsa.sign_(_MSG, _Q) if served else dsa.sign_(_MSG[:20], _Q, hf=hashlib.sha1)).serialize()
+    if kind == "ssa":
+        return (ssa.sign_(_MSG, _Q, _AUX) if served else ssa.sign_(_MSG, _Q, _AUX, _R1)).serialize()
+    return curve_mod._tweak_add_var(_BASE, t, secp256k1) if served else curve_mod._tweak_add_var(_BASE_R1, t, _R1)  # noqa: SLF001
+
+
+def _backend_run(flag0, ops, answers=None):
+    """ops on the real flag and real objects; `answers` (a list) collects (object answer, fresh, free) per use."""
+    out, objs = [], []
+    with _flag(None):
+        set_serving(serving=flag0)
+        for op in ops:
+            try:
+                if op == "T1":
+                    set_serving(serving=True)
+                    r = "none"
+                elif op == "T0":
+                    curve_mod._bindings_installed = False  # noqa: SLF001 - as on a machine without the bindings
+                    try:
+                        set_serving(serving=True)
+                    finally:
+                        curve_mod._bindings_installed = True  # noqa: SLF001
+                    r = "none"
+                elif op == "F":
+                    set_serving(serving=False)
+                    r = "none"
+                elif op[0] == "B":
+                    objs.append(_build_obj(len(objs), op[1] == "1"))
+                    r = "none"
+                elif op[0] == "U":
+                    i = int(op[1:])
+                    if i >= len(objs):
+                        r = "err:foreign"
+                    else:
+                        kind, served, o = objs[i]
+                        r = _obj_arm(kind, o)
+                        if answers is not None:
+                            fresh = _build_obj(i, served)
+                            answers.append((op, kind, _obj_answer(kind, served, o), _obj_answer(kind, served, fresh[2]),
+                                            _free_answer(kind, served), r, _obj_arm(kind, fresh[2])))
+                elif op in ("C1", "C0"):
+                    r = "C" if curve_mod._libsecp256k1_serves(secp256k1, hashlib.sha256 if op == "C1" else hashlib.sha1) else "P"  # noqa: SLF001
+                else:
+                    raise common.HarnessError("backend op " + op)
+            except common.HarnessError:
+                raise
+            except Exception as e:  # noqa: BLE001
+                r = "err:" + _cls(e)
+            out.append(f"{r}@f{int(is_serving())}o{''.join('1' if _obj_arm(k, o) == 'C' else '0' for k, _, o in objs)}")
+    return out
+
+
+def _o_captured_objects(w):
+    """objects built under one flag value and used after flips answer, byte for byte, what an object built at that
+    moment answers and what the free function answers."""
+    answers: list = []
+    _backend_run(w["flag"], w["ops"], answers)
+    crossed = 0
+    for op, kind, got, fresh, free, arm, fresh_arm in answers:
+        if not (got == fresh == free):
+            return False, (f"{kind} object at `{op}` in {';'.join(w['ops'])} (its arm {arm}, a fresh one's {fresh_arm}) answered "
+                           f"{str(got)[:40]}, a fresh object {str(fresh)[:40]}, the free function {str(free)[:40]}")
+        crossed += arm != fresh_arm
+    return True, f"{len(answers)} uses, {crossed} on the arm a fresh object would not take"
+
+
 # =============================================================================== impl (replay entry)
 def impl(line: str) -> str:
     t = line.split(" ")
@@ -613,6 +717,8 @@ def impl(line: str) -> str:
         return _fmt(_wallet_run(t[1], ops))
     if t[0] == "memo":
         return _fmt(_memo_run(int(t[1]), ops))
+    if t[0] == "backend":
+        return _fmt(_backend_run(t[1] == "1", ops))
     return "bad-op"
 
 
@@ -726,6 +832,8 @@ def _o_wallet_invariant(w):
             if (info.branch, info.index, info.script_type) != (b, i, wal.script_type):
                 return False, f"{op}: recorded {info}"
         elif t[0] == "K":
+            if t[1] == "!":
+                return False, "add answered a key it must refuse"
             a = am[t[1]]
             loose.append(a)
             if a not in order:
@@ -1099,7 +1207,9 @@ def _o_curve_identity(w):
                               ("double_mult_var", lambda: double_mult_var(m, G, k, Pk, ec),
                                (lambda r: (1, 0) if r is None else r)(_nadd(_nmult(m % n, G, p, a), _nmult(k % n, Pk, p, a), p, a))),
                               ("multi_mult_var", lambda: multi_mult_var([m, k, 3], [G, Pk, G], ec),
-                               (lambda r: (1, 0) if r is None else r)(_nadd(_nmult((m + 3) % n, G, p, a), _nmult(k % n, Pk, p, a), p, a))),
+                               # term by term, each scalar reduced on its own: on the pair whose second `n` is taken on trust n*G is not infinity
+                               (lambda r: (1, 0) if r is None else r)(_nadd(_nadd(_nmult(m % n, G, p, a), _nmult(k % n, Pk, p, a), p, a),
+                                                                            _nmult(3 % n, G, p, a), p, a))),
                               ("dsa.gen_keys", lambda: dsa.gen_keys(m % n or 1, ec)[1], ref(m % n or 1))]
                     if big:
                         q = m % n or 1
@@ -1203,6 +1313,7 @@ ORACLES = {
     "signer.wiped_dead": _o_signer_dead,
     "softsigner.closed_never_signs": _o_soft_closed,
     "wallet.invariant": _o_wallet_invariant,
+    "backend.captured_objects": _o_captured_objects,
     "cache.independent": _o_cache_independent,
     "cache.key_sound": _o_key_sound,
     "cache.vs_uncached": _o_vs_uncached,
@@ -1352,6 +1463,11 @@ def _run(ctx, rng, thorough):
         for k in range(0, len(cs), 20000):
             ctx.correspond(f"wallet.all.{cfg}", EXE, cs[k:k + 20000], nontrivial=_nt)
         ctx.exhaustive_streams.append(f"wallet.all.{cfg}: every history of length {d} over {alpha}")
+    t01 = _tok(_ref_entry("0,1", 0, 1))
+    kalpha = ["A:0:1", "K:!", f"K:{t01}", f"K:{fk}", "N:0", f"I:{t01}"]     # loose keys: refused, colliding with a position, foreign
+    cs = _wallet_all("0,1", kalpha, 5 if thorough else 4)
+    ctx.correspond("wallet.all.0,1.keys", EXE, cs, nontrivial=_nt)
+    ctx.exhaustive_streams.append(f"wallet.all.0,1.keys: every history of length {5 if thorough else 4} over {kalpha}")
     cases = []
     for _ in range(ctx.n(150, 2500)):
         cfg = rng.choice(list(WALLETS))
@@ -1371,7 +1487,7 @@ def _run(ctx, rng, thorough):
                 tok = fa if (e in ("!", "~") or rng.random() < 0.2) else _tok(e)
                 k = rng.choice(["P", "I", "C", "L", "K"] if cfg == "0,1" else ["P", "I", "C", "L"])
                 if k == "K" and tok == fa:
-                    tok = fk
+                    tok = fk if rng.random() < 0.6 else "!"
                 ops.append({"P": f"P:{tok}:{rng.choice([0, 3, 6])}", "I": f"I:{tok}", "C": f"C:{tok}", "L": "L",
                             "K": f"K:{tok}"}[k])
         cases.append((_wallet_line(cfg, ops), _fmt(_wallet_run(cfg, ops))))
@@ -1389,6 +1505,34 @@ def _run(ctx, rng, thorough):
     ctx.correspond("memo.lru", EXE, cases)
 
     _lap(ctx, "memo")
+    # ---------------------------------------------------------------- backend flag and construction-time capture
+    if INSTALLED:
+        balpha = ["T1", "F", "B1", "U0", "U1", "C1"]
+        d = 6 if thorough else 4
+        cases = []
+        for flag0 in (True, False):
+            for ops in _all_histories(balpha, d):
+                cases.append((f"backend {int(flag0)} {';'.join(ops)}", _fmt(_backend_run(flag0, ops))))
+        ctx.correspond("backend.all", EXE, cases, nontrivial=lambda ln, o: "@" in o)
+        ctx.exhaustive_streams.append(f"backend.all: every history of length {d} over set True, set False, build a served "
+                                      "object, use object 0, use object 1, free dispatching call; from both flag values")
+        ball = ["T1", "T0", "F", "B1", "B0", "U0", "U1", "U2", "U3", "C1", "C0"]
+        cases = []
+        crossed = 0
+        for _ in range(ctx.n(60, 1000)):
+            ops = [rng.choice(ball) for _ in range(rng.randrange(2, 14))]
+            flag0 = rng.random() < 0.5
+            cases.append((f"backend {int(flag0)} {';'.join(ops)}", _fmt(_backend_run(flag0, ops))))
+            # histories made to cross: build under one value, flip, use
+            ops2 = [rng.choice(["B1", "B1", "B0"]) for _ in range(3)] + [rng.choice(["F", "T1"])] + \
+                   [rng.choice(["U0", "U1", "U2", "F", "T1", "B1"]) for _ in range(rng.randrange(2, 8))]
+            ctx.check("backend.captured_objects", {"flag": flag0, "ops": ops2})
+            ctx.check("backend.captured_objects", {"flag": flag0, "ops": ops})
+        ctx.correspond("backend.random", EXE, cases, nontrivial=lambda ln, o: "@" in o)
+    else:
+        ctx.note("bindings not installed: the backend / captured-object streams have nothing to flip")
+    _lap(ctx, "backend")
+
     # ---------------------------------------------------------------- cache independence (real code alone)
     calls = []
     for name in ("secp256k1", "secp112r1", "secp160r1", "secp192k1"):
